@@ -12,6 +12,8 @@ R-C07-diag     diagonal_in_z_basis: compute_matrix not NotDiagonal; an own compu
                compute_eigvals defined below the operator base
 R-C07-comp     composable_rotations: one-parameter generator (documented exception Rot); adjoint negated; pow scaled
 R-C07-ugen     has_unitary_generator: all frequencies of the matrix have equal non-zero modulus; generator not a projector
+R-C07-symm     symmetric_over_all_wires / symmetric_over_control_wires: the symbolic matrix E4 reads off compute_matrix is
+               invariant, entry by entry, under every transposition of (control) qubits
 
 A refutation names the attribute entry (``<set>[<name>]``): the claim is the entry.  All reasons found for
 one entry are reported in one finding.
@@ -32,6 +34,7 @@ SELFINV = "R-C07-selfinv"
 DIAG = "R-C07-diag"
 COMP = "R-C07-comp"
 UGEN = "R-C07-ugen"
+SYMM = "R-C07-symm"
 AT = F.ATTRIBUTES_MODULE
 
 EXPECTED_SETS = ("composable_rotations", "has_unitary_generator", "self_inverses", "symmetric_over_all_wires",
@@ -44,8 +47,6 @@ COMPOSABLE_EXCEPTIONS = {
            "through fuse_rot_angles, not by adding angles)",
 }
 NOT_DECIDED = {
-    "symmetric_over_all_wires": "needs the entry positions of (parametrized) matrices under a wire permutation — numerical, not decided",
-    "symmetric_over_control_wires": "needs the matrix under a permutation of the control wires — numerical, not decided",
     "supports_broadcasting": "the batched-matrix claim is numerical; the candidate structural rule (ndim_params declared) was probed and is not a "
                              "necessary condition of the property (DESIGN C07, not armed)",
 }
@@ -315,6 +316,74 @@ def check_ugen(ix, rep, s, resolved):
     return stats
 
 
+def _show(sc):
+    alts = sorted(repr(a) for a in getattr(sc, "alts", ()))
+    return alts[0] if len(alts) == 1 else "one of {" + ", ".join(alts) + "}"
+
+
+def _ket(i, n):
+    return format(i, f"0{n}b")
+
+
+def check_symm(ix, rep, sets, resolved):
+    """the matrix of a gate on n wires does not depend on the order of (all / the control) wires iff it is invariant
+    under every transposition of those qubits: M[pi(i), pi(j)] == M[i, j], pi exchanging two bits of the basis index"""
+    stats = dict(all_entries=0, all_proved=0, ctrl_entries=0, ctrl_proved=0)
+    for sname, over_controls in (("symmetric_over_all_wires", False), ("symmetric_over_control_wires", True)):
+        s = sets[sname]
+        key = "ctrl" if over_controls else "all"
+        for name, node in zip(s.names, s.nodes):
+            cls = resolved.get((sname, name))
+            if cls is None:
+                continue
+            stats[f"{key}_entries"] += 1
+            e = Entry(rep, SYMM, sname, name, node, cls)
+            rep.analysed(cls.module.relpath, cls.name)
+            arrs, n, all_concrete = F.square_arrays(ix, cls)
+            if arrs is None:
+                e.unknown("matrix", "compute_matrix does not resolve to a concrete 2**n x 2**n array (size depends on the wires, or Top): not decided")
+                continue
+            nw = F._int_literal_attr(cls, "num_wires")
+            if nw is not None and nw != n:
+                e.unknown("matrix", f"matrix acts on {n} qubits but num_wires = {nw}")
+                continue
+            if over_controls:
+                k = F.control_qubits(ix, cls)
+                if k is None:
+                    e.unknown("controls", f"the control/target split of {cls.name} cannot be read (not a Controlled2 subclass handing a base operator "
+                              f"with a literal num_wires to super().__init__)")
+                    continue
+                qubits = list(range(k))
+                what = f"the {k} control qubits (the first {k} of {n} wires)"
+            else:
+                qubits = list(range(n))
+                what = f"all {n} qubits"
+            pairs = [(a, b) for a in qubits for b in qubits if a < b]
+            if not pairs:
+                e.proved("matrix", f"fewer than two {'control ' if over_controls else ''}qubits: nothing to permute")
+                continue
+            results = [F.qubit_symmetry(a, n, pairs) for a in arrs]
+            bad = next((r for r in results if r[0] == "differs"), None)
+            dc, fi = T.resolve_compute_matrix(cls)
+            qn = f"{fi.module.relpath}:{fi.qualname}" if fi is not None else f"{cls.name}.compute_matrix"
+            if fi is not None:
+                rep.analysed(fi.module.relpath, fi.qualname)
+            if bad is not None:
+                a, b, i, j, pi, pj, x, y = bad[1]
+                e.refute(f"the matrix of {qn} is not invariant under exchanging wires {a} and {b}: entry <{_ket(i, n)}|U|{_ket(j, n)}> = {_show(x)} "
+                         f"but the exchanged entry <{_ket(pi, n)}|U|{_ket(pj, n)}> = {_show(y)}; {cls.name}(wires=[..w{a}..w{b}..]) and the same gate with "
+                         f"the two wires swapped are different operators, yet passes consulting the set treat them as equal")
+            elif all(r[0] == "invariant" for r in results) and all_concrete:
+                stats[f"{key}_proved"] += 1
+                e.proved("matrix", f"every entry of the symbolic {1 << n}x{1 << n} matrix of {qn} equals its image under each transposition of {what}")
+            else:
+                u = next((r[1] for r in results if r[0] == "unknown"), None)
+                e.unknown("matrix", "equality of two entries holding opaque constants (1/sqrt(2), ...) is not decided"
+                          + (f" (first: entry [{u[2]},{u[3]}] under the exchange of qubits {u[0]},{u[1]})" if u else ""))
+            e.close()
+    return stats
+
+
 def check(ctx):
     ix = ctx.index
     rep = Report("C07", "each attribute set of ops/qubit/attributes.py agrees with what the named class declares about itself elsewhere, and "
@@ -330,6 +399,14 @@ def check(ctx):
              "pow(z), when overridden, scales it")
     rep.rule(UGEN, "has_unitary_generator: the Fourier support of the one-parameter compute_matrix has frequencies of one non-zero modulus "
              "(generator proportional to a unitary, read off the spectrum); a generator() that is a basis-state Projector refutes")
+    rep.rule(SYMM, "symmetric_over_all_wires / symmetric_over_control_wires: with the matrix of compute_matrix read by E4 as a concrete 2**n x 2**n "
+             "array of symbolic entries (exact trigonometric polynomials in the gate parameters), the gate does not depend on the order of all / of its "
+             "control wires iff M[pi(i), pi(j)] == M[i, j] for every transposition pi of those qubits (bits of the basis index; controls = the "
+             "leading num_wires - base.num_wires wires of a Controlled2 subclass). All entries equal => proved; a provably different pair => "
+             "refuted naming the pair; non-literal size (MultiRZ, Identity), opaque constants (SISWAP) or an unreadable control split => unknown. "
+             "The converse (a symmetric gate missing from the set) is a missed optimisation and not checked.")
+    rep.assume("exponentials exp(i f p) with distinct frequencies are linearly independent functions of the parameter: two exact symbolic entries "
+               "are equal iff their term tables are equal; an opaque constant written in the source is non-zero")
     rep.assume("op.name is the class __name__ (Operator2.name / Operator.name); an alias assignment `A = B` at module level makes A denote B")
     rep.assume("E4 assumptions of C09: gate parameters are scalars, all branches joined, opaque constants written in the source are non-zero")
     rep.assume("a class with generator() G and one parameter p is exp(i p G)")
@@ -346,9 +423,10 @@ def check(ctx):
     dg = check_diag(ix, rep, sets["diagonal_in_z_basis"], resolved)
     cp = check_comp(ix, rep, sets["composable_rotations"], resolved)
     ug = check_ugen(ix, rep, sets["has_unitary_generator"], resolved)
+    sy = check_symm(ix, rep, sets, resolved)
     for sname, why in NOT_DECIDED.items():
         rep.exempt(NAMES, f"{AT}:{sname}", f"names resolved; the claim itself: {why}")
-    rep.extra["stats"] = {"self_inverses": si, "diagonal_in_z_basis": dg, "composable_rotations": cp, "has_unitary_generator": ug}
+    rep.extra["stats"] = {"self_inverses": si, "diagonal_in_z_basis": dg, "composable_rotations": cp, "has_unitary_generator": ug, "symmetric": sy}
 
     rep.floor("Attribute([...]) displays", len(sets), 7)
     rep.floor("attribute strings", n_strings, 109)
@@ -369,4 +447,8 @@ def check(ctx):
     rep.floor("composable_rotations: scaled pow()", cp["pow"], 10)
     rep.floor("has_unitary_generator entries", ug["entries"], 14)
     rep.floor("has_unitary_generator: equal-modulus support", ug["proved"], 14)
+    rep.floor("symmetric_over_all_wires entries", sy["all_entries"], 13)
+    rep.floor("symmetric_over_all_wires: matrix proved invariant", sy["all_proved"], 9)
+    rep.floor("symmetric_over_control_wires entries", sy["ctrl_entries"], 2)
+    rep.floor("symmetric_over_control_wires: matrix proved invariant", sy["ctrl_proved"], 2)
     return rep
